@@ -83,11 +83,15 @@ def r1(ctx, chk):
     # the match is taken on the string handed in, choosing the regex by `negative`
     ok = False
     for n in iter_own_nodes(f.node):
-        if isinstance(n, ast.If) and isinstance(n.test, ast.Name) and n.test.id == "negative" and n.body and n.orelse:
-            b = ast.unparse(n.body[0].value) if isinstance(n.body[0], ast.Assign) else ""
-            o = ast.unparse(n.orelse[0].value) if isinstance(n.orelse[0], ast.Assign) else ""
+        if not isinstance(n, ast.If):
+            continue
+        from ..core.ctx import if_arms
+        t_, then_, else_ = if_arms(n)
+        if isinstance(t_, ast.Name) and t_.id == "negative" and then_ and else_:
+            b = ast.unparse(then_[0].value) if isinstance(then_[0], ast.Assign) else ""
+            o = ast.unparse(else_[0].value) if isinstance(else_[0], ast.Assign) else ""
             ok = b.startswith("RE_SEARCH_NEGATIVE_TIMESTAMP.search(") and o.startswith("RE_SEARCH_TIMESTAMP.search(") \
-                and ast.unparse(n.body[0].targets[0]) == ast.unparse(n.orelse[0].targets[0])
+                and ast.unparse(then_[0].targets[0]) == ast.unparse(else_[0].targets[0])
     chk.ob(rule, "the negative regex is used only when negative=True", ok, "", key={"construct": "regex choice"}, file=f.file,
            function=f.qual, line=f.node.lineno)
     D = ix.cls("dateparser.date:_DateLocaleParser")
